@@ -162,7 +162,7 @@ func (c *Ctx) extractPeephole(fd *ast.FuncDecl, sw *ast.SwitchStmt) (*peephole, 
 			continue
 		}
 		rw := &rewrite{Clause: cl}
-		byOff := map[int64]string{}
+		byOff := map[int64][]string{}
 		var conj []ast.Expr
 		var split func(e ast.Expr)
 		split = func(e ast.Expr) {
@@ -175,10 +175,49 @@ func (c *Ctx) extractPeephole(fd *ast.FuncDecl, sw *ast.SwitchStmt) (*peephole, 
 		}
 		split(cl.List[0])
 		bad := false
+		codeTest := func(e ast.Expr) (int64, string, bool) {
+			be, ok := unparen(e).(*ast.BinaryExpr)
+			if !ok || be.Op != token.EQL {
+				return 0, "", false
+			}
+			l := in.eval(st.Clone(), be.X)
+			rt := in.eval(st.Clone(), be.Y)
+			if l.Op == "field" && l.Name == "Code" && l.Args[0].Op == "var" && strings.HasPrefix(l.Args[0].Name, "I") && rt.Op == "const" {
+				var off int64
+				fmt.Sscanf(l.Args[0].Name, "I%d", &off)
+				return off, rt.Name, true
+			}
+			return 0, "", false
+		}
 		for _, e := range conj {
 			be, ok := e.(*ast.BinaryExpr)
 			if !ok {
 				bad = true
+				continue
+			}
+			if be.Op == token.LOR {
+				// (in[n+k].Code == codeX || in[n+k].Code == codeY): alternatives at one offset
+				var alts []ast.Expr
+				var flat func(x ast.Expr)
+				flat = func(x ast.Expr) {
+					if b2, ok := unparen(x).(*ast.BinaryExpr); ok && b2.Op == token.LOR {
+						flat(b2.X)
+						flat(b2.Y)
+						return
+					}
+					alts = append(alts, x)
+				}
+				flat(be)
+				off0 := int64(-1)
+				for _, a := range alts {
+					off, name, ok := codeTest(a)
+					if !ok || (off0 >= 0 && off != off0) {
+						bad = true
+						break
+					}
+					off0 = off
+					byOff[off] = append(byOff[off], name)
+				}
 				continue
 			}
 			l := in.eval(st.Clone(), be.X)
@@ -187,7 +226,7 @@ func (c *Ctx) extractPeephole(fd *ast.FuncDecl, sw *ast.SwitchStmt) (*peephole, 
 			case be.Op == token.EQL && l.Op == "field" && l.Name == "Code" && l.Args[0].Op == "var" && strings.HasPrefix(l.Args[0].Name, "I") && rt.Op == "const":
 				var off int64
 				fmt.Sscanf(l.Args[0].Name, "I%d", &off)
-				byOff[off] = rt.Name
+				byOff[off] = append(byOff[off], rt.Name)
 			case be.Op == token.LSS && l.Op == "var" && l.Name == "n":
 				// n < len(in) - k
 				lf := linOf(rt)
@@ -210,18 +249,26 @@ func (c *Ctx) extractPeephole(fd *ast.FuncDecl, sw *ast.SwitchStmt) (*peephole, 
 			p.Problems = append(p.Problems, "unrecognised rewrite condition at "+c.Pos(cl)+": "+c.Src(cl.List[0]))
 			continue
 		}
+		windows := [][]string{{}}
 		for i := int64(0); i < int64(len(byOff)); i++ {
-			op, ok := byOff[i]
+			ops, ok := byOff[i]
 			if !ok {
 				bad = true
 				break
 			}
-			rw.Window = append(rw.Window, op)
+			var next [][]string
+			for _, w := range windows {
+				for _, op := range ops {
+					next = append(next, append(append([]string{}, w...), op))
+				}
+			}
+			windows = next
 		}
-		if bad || len(rw.Window) == 0 {
+		if bad || len(byOff) == 0 {
 			p.Problems = append(p.Problems, "window offsets are not contiguous from 0 at "+c.Pos(cl))
 			continue
 		}
+		rw.Window = windows[0]
 		// body: out = append(out, <lit>) ; n += k
 		s2 := st.Clone()
 		res := in.execStmts(cl.Body, []*State{s2})
@@ -255,6 +302,11 @@ func (c *Ctx) extractPeephole(fd *ast.FuncDecl, sw *ast.SwitchStmt) (*peephole, 
 			}
 		}
 		p.Rewrites = append(p.Rewrites, rw)
+		for _, w := range windows[1:] {
+			alt := *rw
+			alt.Window = w
+			p.Rewrites = append(p.Rewrites, &alt)
+		}
 	}
 	return p, nil
 }
